@@ -96,7 +96,8 @@ def correspondence(run):
             for f in gen_site.output_files(out):
                 if f.endswith(".html"):
                     p = gen_site.parse_page((out / f[1:]).read_text())
-                    real[f] = (p.title, sorted(unquote(x[2]) for x in p.links))
+                    # links inside a recipe's own tables (references to its sub recipes, '#recipe-...') are C09's subject, not the site model's
+                    real[f] = (p.title, sorted(unquote(x[2]) for x in p.links if not x[2].startswith("#recipe")))
             if not (isinstance(m, tuple) and m[0] == "ok"):
                 run.disagree("site", gen_site.tree_sexp(d), "ok", repr(m)[:200])
                 continue
